@@ -73,6 +73,7 @@ SPEC = {
         'dirichlet_valid', 'dirichlet_isProb', 'dirichlet_valid_nonneg', 'dirichlet_all_zero_invalid', 'dirichlet_scale_invariant',
         'beta_in_unit', 'beta_complement', 'beta_eq_dirichlet', 'beta_scale_invariant', 'dirichlet_valid_of_max_one', 'dirichlet_max_shift',
         # joint distributions: the draw vectors mapped to an outcome form a box whose volume is the product of the table entries
+        'sampleSOR_selects_jointly', 'coopSampleS_selects_jointly', 'sampleSORSparse_selects_jointly',
         'sampleSOR_box', 'sampleSOR_box_area', 'sampleSORSparse_box', 'coopSampleS_box', 'ddnTransitionProbability_nonneg',
         # exact-arithmetic justification of fixes/C08-4 (scale by the largest entry, then normalise)
         'normalize_scaled_eq',
